@@ -198,6 +198,7 @@ class H11ConnModel:
 
         def fail():
             f["our_state"] = h11.ERROR
+            interp.traces.setdefault("h11_refused", []).append(ev)  # contracts: what became of a refused send
             raise PyRaise(SObj(h11.LocalProtocolError, {"args": ()}), fr.where())
 
         cls = ev.cls if isinstance(ev, SObj) else None
